@@ -50,7 +50,8 @@ def _chunked(body: bytes, sizes=None, ext: str = "") -> bytes:
 def build_response(spec: dict, req: Req | None, idx: int) -> tuple[bytes, bool, bytes]:
     """Serialise a scripted response.  Returns (bytes, keepalive, body)."""
     if spec.get("k") == "raw":
-        return binascii.unhexlify(spec["hex"]), spec.get("end", "keep") == "keep", b""
+        data = spec["bytes"] if "bytes" in spec else binascii.unhexlify(spec["hex"])
+        return data, spec.get("end", "keep") == "keep", b""
     status = int(spec.get("status", 200))
     reason = spec.get("reason", "OK")
     body = spec.get("body", None)
